@@ -302,10 +302,14 @@ def run(ctx):
     if got != want:
         ctx.fail("no-failing-input-found", "generated table ft_default differs from the live _global_functions: %s vs %s" % (got, want),
                  {"table": "ft_default", "model": got, "impl": want})
-    # residual of F21, recorded (not an alarm: see ASSUME)
+    # residual of F23 (open, listed in KNOWN_FINDINGS.txt by these exact witnesses): a subscripted attribute call on a
+    # receiver typed by a literal still raises AttributeError (pinned for user classes by test_index_callback_bad_prop)
     for s in ["lambda e: {'a': e.x}.a[0](1)", "lambda e: (1).x[0](2)"]:
         impl = tc.run_impl(m, "Select", m.ev("Any"), ast.parse(s).body[0].value)
         ctx.notes.append("known residual (outside the stated grammar restriction): %s -> %s" % (s, tc.show(impl)[:80]))
+        if impl[0] != "ok" and "ValueError" not in tc.show(impl):
+            ctx.fail("failing-input", "Select(%s) on an untyped stream: %s (an internal error, not a designed ValueError)" % (s, tc.show(impl)[:120]),
+                     {"oracle": "passthrough-residual", "lambda": s}, key=core.digest({"p": ID, "residual": s}))
 
 
 def replay(ctx, wit):
